@@ -145,6 +145,7 @@ type cluster struct {
 	attachAt map[int]int // be seq -> number of writes issued when it was attached
 	synced   map[int]bool
 	failedBE map[int]bool // be seq -> failed a call by script
+	lostProbes map[int]int // node -> number of upcoming liveness probes of that node that get lost although it is alive
 	regTruth map[int]int64 // node -> revision it registered with, since it last left the volume (ground truth for C09)
 	opFailed map[int]bool // node -> its call failed by script during the current I/O event
 	opIO     bool         // the current event is a data-path operation
@@ -337,6 +338,10 @@ func (f factory) SignalToAdd(address, action string) error {
 		cl.observe("signal %s %s -> failed", address, action)
 		if action == "start" {
 			cl.oracleElection(v, s)
+			// the controller voids the registration of a replica it could not signal; the ground truth follows
+			if n >= 0 && n < len(cl.nodes) {
+				delete(cl.regTruth, n)
+			}
 		}
 		return fmt.Errorf("signal to %s failed (injected)", address)
 	}
@@ -355,7 +360,21 @@ func (f factory) SignalToAdd(address, action string) error {
 
 func (f factory) VerifyReplicaAlive(address string) bool {
 	n := nodeOf("tcp://" + address + ":9502")
-	return n >= 0 && n < len(f.cl.nodes) && !f.cl.down[n]
+	if n < 0 || n >= len(f.cl.nodes) {
+		return false
+	}
+	if f.cl.lostProbes[n] > 0 {
+		// a single liveness probe of a replica that is alive got lost (the controller probes three times)
+		f.cl.lostProbes[n]--
+		f.cl.cnt["lost_probes"]++
+		return false
+	}
+	if f.cl.down[n] {
+		// really unreachable: the controller may drop its registration, the ground truth follows
+		delete(f.cl.regTruth, n)
+		return false
+	}
+	return true
 }
 
 func (cl *cluster) violate(oracle, sig, detail string) {
@@ -381,7 +400,7 @@ func newCluster(cfg *Cfg, scratch string) *cluster {
 		cfg.N = cfg.RF + 1
 	}
 	os.Setenv("REPLICATION_FACTOR", fmt.Sprint(cfg.RF))
-	cl := &cluster{cfg: cfg, fe: &frontend{}, cnt: map[string]int{}, acked: map[int]bool{}, issued: map[int]bool{}, attachAt: map[int]int{}, synced: map[int]bool{}, failedBE: map[int]bool{}, adds: map[int]*task{}, pendingCleaner: -1, cleanerTick: map[int]chan time.Time{}, regTruth: map[int]int64{}, opFailed: map[int]bool{},
+	cl := &cluster{cfg: cfg, fe: &frontend{}, cnt: map[string]int{}, acked: map[int]bool{}, issued: map[int]bool{}, attachAt: map[int]int{}, synced: map[int]bool{}, failedBE: map[int]bool{}, adds: map[int]*task{}, pendingCleaner: -1, cleanerTick: map[int]chan time.Time{}, regTruth: map[int]int64{}, lostProbes: map[int]int{}, opFailed: map[int]bool{},
 		failIO: map[int]bool{}, failREST: map[string]bool{}, stickyREST: map[string]bool{}}
 	cl.down = make([]bool, cfg.N)
 	for i := 0; i < cfg.N; i++ {
